@@ -327,6 +327,7 @@ func c09resGB(c *Ctx) {
 	}
 	reps := c.Drv.AskBatch(reqs)
 	printed := make([]string, len(mbs))
+	reread := make([]string, len(mbs)) // MemGB the real parser reads from the real output, in MB
 	var reqs2 [][]string
 	for i, v := range mbs {
 		text := c09resExactGB(v)
@@ -340,7 +341,7 @@ func c09resGB(c *Ctx) {
 		if len(w) != 12 || w[6] != v.String() {
 			mismatch("C09:readgb-mismatch", "the exact decimal text of mb/1024 does not parse to MemGB = mb/1024", brokenRead, in, d, v.String())
 			printed[i] = "?"
-			reqs2 = append(reqs2, []string{"C09.readgb", hx("?")})
+			reqs2 = append(reqs2, []string{"C09.readgb", hx("?")}, []string{"C09.readgb32", hx("?")})
 			continue
 		}
 		out, err, pan := c09Format([]byte(src), "stage.mro")
@@ -353,13 +354,30 @@ func c09resGB(c *Ctx) {
 			mismatch("C09:formatgb-mismatch", "formatGB prints something else than the model's fmtGB", brokenFmt, in, out+fmt.Sprint(err, pan), unhx(reps[i]))
 		}
 		c09resProperty(c, src, "gb-value")
-		reqs2 = append(reqs2, []string{"C09.readgb", hx(p)})
+		if d1, _ := c09resDump(out); strings.HasPrefix(d1, "some ") {
+			reread[i] = strings.Split(d1, " ")[6]
+		} else {
+			reread[i] = d1
+		}
+		reqs2 = append(reqs2, []string{"C09.readgb", hx(p)}, []string{"C09.readgb32", hx(p)})
 	}
 	reps2 := c.Drv.AskBatch(reqs2)
 	for i, v := range mbs {
-		if printed[i] != "?" && reps2[i] != "some "+v.String() {
+		if printed[i] == "?" {
+			continue
+		}
+		in := map[string]interface{}{"mb": v.String(), "printed": printed[i]}
+		if reps2[2*i] != "some "+v.String() {
 			mismatch("C09:readgb-mismatch", "the model's readGB of the text formatGB printed is not the value (theorem formatGB_roundtrip evaluated)",
-				"Props.C09.formatGB_roundtrip", map[string]interface{}{"mb": v.String(), "printed": printed[i]}, "", reps2[i])
+				"Props.C09.formatGB_roundtrip", in, "", reps2[2*i])
+		}
+		// with the float32 rounding of the literal the model must read what the real parser reads,
+		// also where that is not the value (F29)
+		if reps2[2*i+1] != "some "+reread[i] {
+			mismatch("C09:readgb-mismatch", "MemGB the parser reads from the printed value differs from the model's readGB32", brokenRead, in, reread[i], reps2[2*i+1])
+		}
+		if reread[i] != v.String() {
+			r.hist("gb:value:float32-rounding-loses-a-step(F29)")
 		}
 	}
 
@@ -396,7 +414,7 @@ func c09resGB(c *Ctx) {
 	}
 	var reqs3 [][]string
 	for _, t := range lits {
-		reqs3 = append(reqs3, []string{"C09.readgb", hx(t)})
+		reqs3 = append(reqs3, []string{"C09.readgb", hx(t)}, []string{"C09.readgb32", hx(t)})
 	}
 	reps3 := c.Drv.AskBatch(reqs3)
 	type litRes struct {
@@ -409,40 +427,23 @@ func c09resGB(c *Ctx) {
 		in := map[string]interface{}{"literal": t, "source": src}
 		d, _ := c09resDump(src)
 		r.count("gb-literal:"+t, true)
+		exactRep, f32Rep := reps3[2*i], reps3[2*i+1]
 		if !strings.HasPrefix(d, "some ") {
 			r.hist("gb:literal:rejected")
-			if reps3[i] != "none" {
-				mismatch("C09:readgb-mismatch", "the parser rejects a mem_gb literal the model reads", brokenRead, in, d, reps3[i])
+			if exactRep != "none" || f32Rep != "none" {
+				mismatch("C09:readgb-mismatch", "the parser rejects a mem_gb literal the model reads", brokenRead, in, d, exactRep+" / "+f32Rep)
 			}
 			continue
 		}
 		realMB := strings.Split(d, " ")[6]
-		if reps3[i] != "some "+realMB {
-			// float32 rounding of the literal, which the model leaves out: recompute both sides exactly
-			v, ok := new(big.Rat).SetString(t)
-			f, _ := strconv.ParseFloat(t, 32)
-			exact := func(x *big.Rat) string {
-				x = new(big.Rat).Mul(x, big.NewRat(1024, 1))
-				q := new(big.Int).Quo(x.Num(), x.Denom()) // truncated
-				if !x.IsInt() {
-					if x.Sign() > 0 {
-						q.Add(q, big.NewInt(1))
-					} else {
-						q.Sub(q, big.NewInt(1))
-					}
-				}
-				return q.String()
-			}
-			f32 := new(big.Rat)
-			f32.SetFloat64(float64(float32(f)))
-			if ok && reps3[i] == "some "+exact(v) && realMB == exact(f32) {
-				r.hist("gb:literal:float32-rounding-of-the-literal-matters")
-			} else {
-				mismatch("C09:readgb-mismatch", "MemGB read from a literal differs from the model's readGB, and not because of the float32 rounding of the literal",
-					brokenRead, in, realMB, reps3[i])
-			}
+		if f32Rep != "some "+realMB {
+			mismatch("C09:readgb-mismatch", "MemGB read from a literal differs from the model's readGB32 (float32 rounding of the literal, then roundUpTo)",
+				brokenRead, in, realMB, f32Rep)
+		}
+		if exactRep == "some "+realMB {
+			r.hist("gb:literal:exact-reading-agrees")
 		} else {
-			r.hist("gb:literal:agree")
+			r.hist("gb:literal:float32-rounding-of-the-literal-matters")
 		}
 		todo = append(todo, litRes{src, realMB})
 		reqs4 = append(reqs4, []string{"C09.fmtgbgo", realMB})
